@@ -94,7 +94,7 @@ func VerifHarness_C06_refresh() {
 
 // CreatePermission: veto and family rules, owner/credential rule, timers.
 //
-//verif:props=C01,C03,C07,C19,C04 replay=model bounds="two XOR-PEER-ADDRESS attributes (IPv4/IPv6, arbitrary); arbitrary permission-handler verdict per address; owner or other user; arbitrary credential verdicts"
+//verif:props=C01,C03,C07,C19,C04 replay=model bounds="IPv4 or IPv6 allocation; two XOR-PEER-ADDRESS attributes encoded by hand (family 1 or 2, incl. IPv4-mapped sent as IPv6); arbitrary permission-handler verdict per address; owner or other user; arbitrary credential verdicts"
 func VerifHarness_C01_create_permission() {
 	s := vNewSrv(false, true)
 	s.pt = time.Duration(vI64())
@@ -104,10 +104,15 @@ func VerifHarness_C01_create_permission() {
 	if vBool() {
 		owner = vStr("other-user")
 	}
-	a := s.alloc(c1, owner)
-	p1 := proto.PeerAddress{IP: allocation.VIP(), Port: allocation.VPort()}
-	p2 := proto.PeerAddress{IP: allocation.VIP(), Port: allocation.VPort()}
-	msg := vNewMsg(stun.MethodCreatePermission, stun.ClassRequest, append([]stun.Setter{p1, p2}, vCreds()...)...)
+	fam := proto.RequestedFamilyIPv4
+	if vBool() {
+		fam = proto.RequestedFamilyIPv6
+	}
+	a := s.allocFam(c1, owner, fam)
+	tid := vBytesN(12)
+	p1, p2 := vAnyWirePeer(), vAnyWirePeer()
+	msg := vNewMsgTID(tid, stun.MethodCreatePermission, stun.ClassRequest,
+		append([]stun.Setter{vXORPeerRaw(tid, p1.fam, p1.ip, p1.port), vXORPeerRaw(tid, p2.fam, p2.ip, p2.port)}, vCreds()...)...)
 	req := s.request(c1)
 	_ = handleCreatePermissionRequest(req, msg)
 	r := s.response(req, msg, stun.MethodCreatePermission)
@@ -119,14 +124,29 @@ func VerifHarness_C01_create_permission() {
 	for _, ip := range s.env.VetoLog {
 		vAssert(a.GetPermission(&net.UDPAddr{IP: ip}) == nil, "C01.refused_peer_is_never_installed")
 	}
+	wantV4 := fam == proto.RequestedFamilyIPv4
 	for _, p := range perms {
 		u := p.Addr.(*net.UDPAddr)
-		vAssert(u.IP.To4() != nil, "C01.wrong_family_peer_is_never_installed")
-		vAssert(vOr(vIPEq(u.IP, p1.IP), vIPEq(u.IP, p2.IP)), "C01.only_requested_peers_are_installed")
+		vAssert((u.IP.To4() != nil) == wantV4, "C01.wrong_family_peer_is_never_installed")
+		vAssert(vOr(vIPEq(u.IP, p1.ip), vIPEq(u.IP, p2.ip)), "C01.only_requested_peers_are_installed")
 		vAssert(vAnd(vTimerArmed(p.VTimer()), vTimerDur(p.VTimer()) == s.pt), "C07.permission_armed_with_configured_permission_timeout")
+		// the table key is the fingerprint of the address the entry remembers (what its expiry will remove)
+		vAssert(a.GetPermission(p.Addr) == p, "C01.permission_entry_is_keyed_by_its_own_address")
 	}
-	vAssertIf(vIsSuccess(r), vAnd(a.GetPermission(&net.UDPAddr{IP: p1.IP}) != nil, a.GetPermission(&net.UDPAddr{IP: p2.IP}) != nil), "C01.success_means_every_requested_peer_is_permitted")
+	vAssertIf(vIsSuccess(r), vAnd(a.GetPermission(&net.UDPAddr{IP: p1.ip}) != nil, a.GetPermission(&net.UDPAddr{IP: p2.ip}) != nil), "C01.success_means_every_requested_peer_is_permitted")
 	vAssertIf(len(s.env.VetoLog) > 0, !vIsSuccess(r), "C01.refused_peer_gets_no_success")
+	vAssertIf(vAnd(p1.isV4() != wantV4, r != nil), !vIsSuccess(r), "C01.wrong_family_peer_gets_no_success")
+	vCover(len(perms) == 2, "C01.cover_two_permissions")
+	// expiry of the first peer's permission removes that peer's entry and no other
+	if len(perms) == 2 {
+		first := a.GetPermission(&net.UDPAddr{IP: p1.ip})
+		second := a.GetPermission(&net.UDPAddr{IP: p2.ip})
+		vAssume(first != nil && second != nil && first != second)
+		vFire(first.VTimer())
+		vAssert(a.GetPermission(&net.UDPAddr{IP: p1.ip}) == nil, "C01.expired_permission_never_authorises")
+		vAssert(a.GetPermission(&net.UDPAddr{IP: p1.ip}) == nil, "C07.expiry_removes_that_peers_permission")
+		vAssert(a.GetPermission(&net.UDPAddr{IP: p2.ip}) == second, "C07.expiry_removes_only_that_peers_permission")
+	}
 	vCover(vIsSuccess(r), "C01.cover_create_permission_success")
 	vCover(len(s.env.VetoLog) > 0, "C01.cover_veto")
 	vReach("end")
@@ -134,7 +154,7 @@ func VerifHarness_C01_create_permission() {
 
 // ChannelBind handler: veto / family / credentials / conflicts -> nothing installed, 4xx; success arms the right timers.
 //
-//verif:props=C01,C03,C07,C08,C19 replay=model bounds="arbitrary CHANNEL-NUMBER (2^16) and peer (IPv4/IPv6); one prior binding; arbitrary veto and credential verdicts; owner or other user"
+//verif:props=C01,C03,C07,C08,C19 replay=model bounds="IPv4 or IPv6 allocation; arbitrary CHANNEL-NUMBER (2^16); peer address encoded by hand (family 1 or 2, incl. IPv4-mapped sent as IPv6); one prior binding; arbitrary veto and credential verdicts; owner or other user"
 func VerifHarness_C08_channel_bind_handler() {
 	s := vNewSrv(false, true)
 	s.pt, s.cbt = time.Duration(vI64()), time.Duration(vI64())
@@ -145,14 +165,24 @@ func VerifHarness_C08_channel_bind_handler() {
 	if vBool() {
 		owner = vStr("other-user")
 	}
-	a := s.alloc(c1, owner)
+	fam := proto.RequestedFamilyIPv4
+	if vBool() {
+		fam = proto.RequestedFamilyIPv6
+	}
+	a := s.allocFam(c1, owner, fam)
 	n0 := proto.ChannelNumber(vU16())
 	q0 := allocation.VUDPAddr4()
+	if fam == proto.RequestedFamilyIPv6 {
+		q0 = &net.UDPAddr{IP: net.IP(vBytesN(16)), Port: allocation.VPort()}
+		vAssume(!vIsV4Mapped(q0.IP))
+	}
 	vAssume(a.AddChannelBind(allocation.NewChannelBind(n0, q0, &allocation.VLogger{}), s.cbt, s.pt) == nil)
 	resets0 := vTimerResets(a.VBindings()[0].VTimer())
 	n := proto.ChannelNumber(vU16())
-	peer := proto.PeerAddress{IP: allocation.VIP(), Port: allocation.VPort()}
-	msg := vNewMsg(stun.MethodChannelBind, stun.ClassRequest, append([]stun.Setter{n, peer}, vCreds()...)...)
+	tid := vBytesN(12)
+	wp := vAnyWirePeer()
+	peer := proto.PeerAddress{IP: net.IP(wp.ip), Port: wp.port}
+	msg := vNewMsgTID(tid, stun.MethodChannelBind, stun.ClassRequest, append([]stun.Setter{n, vXORPeerRaw(tid, wp.fam, wp.ip, wp.port)}, vCreds()...)...)
 	req := s.request(c1)
 	_ = handleChannelBindRequest(req, msg)
 	r := s.response(req, msg, stun.MethodChannelBind)
@@ -163,12 +193,13 @@ func VerifHarness_C08_channel_bind_handler() {
 	vAssertIf(!entitled, unchanged, "C03.channel_bind_without_owner_credentials_changes_nothing")
 	vAssertIf(vIsSuccess(r), entitled, "C03.channel_bind_success_implies_owner_credentials")
 	vAssertIf(len(s.env.VetoLog) > 0, vAnd(unchanged, !vIsSuccess(r)), "C01.refused_peer_is_never_bound")
-	vAssertIf(peer.IP.To4() == nil, vAnd(unchanged, !vIsSuccess(r)), "C01.wrong_family_peer_is_never_bound")
+	wantV4 := fam == proto.RequestedFamilyIPv4
+	vAssertIf(wp.isV4() != wantV4, vAnd(unchanged, !vIsSuccess(r)), "C01.wrong_family_peer_is_never_bound")
 	vAssertIf(!vAnd(n >= 0x4000, n <= 0x7FFF), vAnd(unchanged, !vIsSuccess(r)), "C08.out_of_range_number_is_rejected")
 	conflict := vOr(vAnd(n == n0, !same), vAnd(n != n0, vAnd(peer.Port == q0.Port, vIPEq(peer.IP, q0.IP))))
 	vAssertIf(conflict, unchanged, "C08.conflicting_bind_changes_nothing")
 	if r != nil {
-		clean := vAnd(entitled, vAnd(len(s.env.VetoLog) == 0, peer.IP.To4() != nil))
+		clean := vAnd(entitled, vAnd(len(s.env.VetoLog) == 0, wp.isV4() == wantV4))
 		vAssertIf(vAnd(conflict, clean), vAnd(r.Type.Class == stun.ClassErrorResponse, vErrorCode(r) == 400), "C08.conflicting_bind_is_answered_400")
 	}
 	vAssertIf(vAnd(vIsSuccess(r), same), vAnd(len(bs) == 1, vTimerResets(bs[0].VTimer()) == resets0+1), "C08.identical_rebind_refreshes")
